@@ -9,6 +9,9 @@ CONSTANTS
   AcceptTopBit = FALSE
   LimitPerFrame = FALSE
   PongEmpty = FALSE
+  Compress = {FALSE}
+  Rsv1Shadows = FALSE
+  Rsv1Anywhere = FALSE
   BufSizes = {0, 1, 14, 64, 125}
   CtlNeedsBuffer = FALSE
 INVARIANTS PTypeOk BufferBlind
